@@ -326,11 +326,8 @@ func (s *Sim) exit(id uint64, r any) {
 	if t != nil {
 		t.state = Exited
 		t.Exit = s.step
-		for m, h := range s.muHeld {
-			if h == t {
-				delete(s.muHeld, m)
-			}
-		}
+		// a mutex the task still holds stays held: whoever wants it next is
+		// stuck for good, and is reported as such (MutexWaiters)
 	}
 	if r != nil {
 		name := "?"
@@ -420,6 +417,9 @@ func MuLock(m *sync.Mutex, label string) {
 		if !m.TryLock() {
 			panic("simrt: root goroutine would block on a mutex held by a parked task: " + label)
 		}
+		s.mu.Lock()
+		s.muHeld[m] = rootHolder
+		s.mu.Unlock()
 		return
 	}
 	Yield(label)
@@ -427,6 +427,9 @@ func MuLock(m *sync.Mutex, label string) {
 		s.mu.Lock()
 		t := s.tasks[id]
 		if s.muHeld[m] == nil {
+			if t == nil {
+				t = rootHolder
+			}
 			s.muHeld[m] = t
 			s.mu.Unlock()
 			break
@@ -437,17 +440,20 @@ func MuLock(m *sync.Mutex, label string) {
 		s.mu.Unlock()
 		YieldWhen(label+" mutex-wait", func() bool { return s.muHeld[m] == nil })
 	}
-	m.Lock()
+	if !m.TryLock() {
+		panic("simrt: a mutex is locked behind the scheduler's back: " + label)
+	}
 }
+
+// rootHolder stands for the scheduler goroutine in the table of held mutexes
+// (harness code that calls into the library between runs of the tasks).
+var rootHolder = &Task{Name: "the scheduler goroutine"}
 
 // MuUnlock replaces (*sync.Mutex).Unlock.
 func MuUnlock(m *sync.Mutex) {
 	m.Unlock()
 	s := cur.Load()
 	if s == nil {
-		return
-	}
-	if goid() == s.root {
 		return
 	}
 	s.mu.Lock()
